@@ -376,9 +376,9 @@ def check(rep, args):
     rep.configs = configs
     for cfg in configs:
         prog = facts.program(cfg)
-        check_config(rep, prog)
-        raw_bytes_rule(rep, prog)
-        format_rules(rep, prog)
+        rep.guard(check_config, rep, prog)
+        rep.guard(raw_bytes_rule, rep, prog)
+        rep.guard(format_rules, rep, prog)
     cov = {
         "explanation": "exhaustive panic-edge enumeration below parse_pnm/read_pnm with schema-based discharge (integer ranges propagate through "
                        "the iterator chains into the decoding closures), the Buf2::new_from contract, and format-table agreement between "
